@@ -168,6 +168,9 @@ PROOFS = {
                             ("step_phantom", ["--cinit=CInitPhantom", "--init=IndInit", "--inv=IndInv", "--length=1"]),
                             ("step_five", ["--cinit=CInitFive", "--init=IndInit", "--inv=IndInv", "--length=1"])],
                    "expect_fail": ["step_phantom", "step_five"]},
+    "tlf_acc_tlaps": {"module": "TlfAccProof", "tool": "tlapm",
+                      "claim": "TLAPS theorem Spec => []IndInv for the TLF length accumulator as repaired (checked_mul): for TLFs of any number of bytes the u32 accumulator equals the exact value "
+                               "unless the overflow error was raised, which happens only for values that do not fit 32 bits (35 obligations, Z3 + PTL)"},
     "tlf_acc": {"module": "TlfAcc",
                 "claim": "for a type-length field of any number of bytes the 32-bit accumulator equals the exact value of the concatenated 4-bit groups or the overflow error has been raised for a value that does not fit "
                          "32 bits, and the outcome (length / overflow / underflow after the own-size subtraction) equals the arbitrary-precision rule; checked_shl (as found, D3) and a 64-bit accumulator truncated at the "
@@ -286,7 +289,7 @@ PROPS = {
     "C12": dict(P("every 1- and 2-byte TLF, a strided (quick) / exhaustive (thorough) set of 3-byte TLFs, 2- and 3-byte TLFs followed by exactly the declared number of data bytes, crafted 4-12 byte TLFs around 2^32 and the own-size subtraction, 16-33 byte TLFs beyond 2^64, 17-300 byte TLFs with zero nibbles, integers of width 0-9 with "
                   "boundary leading bytes, the values 1 and 7 in every width and signedness, all boolean bytes - each at 13 field positions of a message template (incl. the tag and the value inside the time structure), observed through the streaming parser's events; valid files with octet strings of 2^16 .. 2^17 bytes"),
                 mc={"quick": ["tlf_exact", "tlf_long"], "thorough": ["tlf_exact", "tlf_long", "grammar"]},
-                proofs=["tlf_acc"],
+                proofs=["tlf_acc", "tlf_acc_tlaps"],
                 steps=[{"cmd": "c12", "judge": "J_C12", "cfg": "JudgeP.cfg"}]),
     "C13": dict(P("the same corruption families as C04 plus LONGLIST (list responses whose message exceeds 2^16 / 2^17 bytes: 8/16/32-byte entries, declared length = / +1 / 2^20 / 2^32-1, complete and cut off); next() is called until None (at most |x|+8 items) and 5 more times; record = (|x|, items, items after the end, error positions)"),
                 mc={"quick": ["grammar"], "thorough": ["grammar"]},
